@@ -111,13 +111,13 @@ Print Assumptions shared_sector_writes_carry_image_partial.
 Theorem completed_writer_data_in_images_partial : forall c dev b0 tr s id k t pos,
   1 <= c_sector c -> b_shared b0 = None ->
   run c (init_state dev b0) tr = Some s ->
-  nth_error (st_threads s) k = Some t -> t_status t = Flushed -> length (t_data t) = t_size t ->
+  nth_error (st_threads s) k = Some t -> t_status t = Flushed ->
   id < length (st_images s) -> t_start t <= pos < t_start t + t_size t ->
   pos / c_sector c = im_sec (nth id (st_images s) dimg) ->
   (pos / c_sector c = t_start t / c_sector c /\ t_first0 t <> None \/
    pos / c_sector c = (t_start t + t_size t) / c_sector c) ->
   nth (pos mod c_sector c) (img_data (st_images s) id) 0%Z = nth (pos - t_start t) (t_data t) 0%Z.
-Proof. exact completed_in_images. Qed.
+Proof. exact completed_in_images_full. Qed.
 Print Assumptions completed_writer_data_in_images_partial.
 
 (** Non-vacuity: two writers sharing a sector (sector size 4), interleaved, both complete;
